@@ -8,14 +8,33 @@ from vlib import gen_tree, model_tree as mt, runner
 from vlib.tape import Tape, tapes
 
 PROPERTY = 'C12'
-FORMATS = {'en': ['auto', 'xml', 'ptb'], 'ja': ['auto', 'jigg_xml']}
-HEAD_IN_FILE = {'auto'}
+FORMATS = {'en': ['auto', 'xml', 'ptb', 'nltk'], 'ja': ['auto', 'jigg_xml', 'nltk']}
+HEAD_IN_FILE = {'auto'}            # formats whose file carries the head flag (all others take the rule's)
 XML_EXCLUDE = '\\'          # token alphabet: XML-representable; backslash kept out so that auto/ptb can share cases
 PTB_EXCLUDE = '\\()'
 
 
-def _read(fmt, path):
+class _NLTKLikeTree(list):
+    """duck-typed stand-in for nltk.tree.Tree (label() + list of children / [word]); NLTK itself is absent here"""
+
+    def __init__(self, label, children):
+        super().__init__(children)
+        self._label = label
+
+    def label(self):
+        return self._label
+
+
+def _as_nltk_like(tree):
+    if tree.is_leaf:
+        return _NLTKLikeTree(str(tree.cat), [tree.token['word']])
+    return _NLTKLikeTree(str(tree.cat), [_as_nltk_like(c) for c in tree.children])
+
+
+def _read(fmt, path, via_extension=False):
     from depccg.tools import reader
+    if via_extension:
+        return list(reader.read_trees_guess_extension(path))
     return list({'auto': reader.read_auto, 'xml': reader.read_xml, 'ptb': reader.read_ptb,
                  'jigg_xml': reader.read_jigg_xml}[fmt](path))
 
@@ -40,18 +59,34 @@ def check_case(case, info=None):
     set_global_language_to(read_lang)
     try:
         tree = gen_tree.tree_of_case(tc)
-        text = to_string(copy.deepcopy([[ScoredTree(tree, -1.0)]]), format=fmt)
-        path = mt.scratch_file('.' + ('jigg.xml' if fmt == 'jigg_xml' else fmt))
-        with open(path, 'w', encoding='utf-8') as f:
-            f.write(text)
-        try:
+        if fmt == 'nltk':
+            # Tree.of_nltk_tree recovers labels with the same function as the file readers
+            from depccg.tree import Tree
+
+            class _R:
+                pass
+            r_ = _R()
             try:
-                rs = _read(fmt, path)
+                r_.tree = Tree.of_nltk_tree(_as_nltk_like(tree))
             except Exception as ex:
-                bad(f'{fmt}/raises/{type(ex).__name__}', f'{type(ex).__name__}: {ex}')
+                bad(f'nltk/raises/{type(ex).__name__}', f'{type(ex).__name__}: {ex}')
                 return fails
-        finally:
-            os.unlink(path)
+            rs = [r_]
+            text = None
+        else:
+            text = to_string(copy.deepcopy([[ScoredTree(tree, -1.0)]]), format=fmt)
+        path = mt.scratch_file('.' + ('jigg.xml' if fmt == 'jigg_xml' else fmt))
+        if text is not None:
+            with open(path, 'w', encoding='utf-8') as f:
+                f.write(text)
+            try:
+                try:
+                    rs = _read(fmt, path, via_extension=bool(case.get('via_extension')))
+                except Exception as ex:
+                    bad(f'{fmt}/raises/{type(ex).__name__}', f'{type(ex).__name__}: {ex}')
+                    return fails
+            finally:
+                os.unlink(path)
         if len(rs) != 1:
             bad(f'{fmt}/tree-count', f'{len(rs)} trees read')
             return fails
@@ -101,12 +136,14 @@ def build_case(data):
     t = Tape(data)
     system = t.pick(['en', 'en', 'ja'])
     fmt = t.pick(FORMATS[system])
-    excl = PTB_EXCLUDE if fmt == 'ptb' else XML_EXCLUDE
+    excl = PTB_EXCLUDE if fmt in ('ptb', 'nltk') else XML_EXCLUDE
     tc = gen_tree.t_tree_case(t, system, licensed=t.chance(200), max_leaves=6, tok_exclude=excl,
                               ja_tokens=(fmt == 'jigg_xml'))
     case = {'kind': 'reader', 'tree': tc, 'format': fmt}
-    if system == 'en' and fmt in ('auto', 'xml', 'ptb') and t.chance(70):
+    if system == 'en' and fmt in ('auto', 'xml', 'ptb', 'nltk') and t.chance(70):
         case['read_lang'] = 'ja'
+    if fmt != 'nltk' and t.chance(80):
+        case['via_extension'] = True       # read_trees_guess_extension dispatches on the file suffix
     return case
 
 
